@@ -13,10 +13,11 @@ def parseName (s : String) : Option Nat :=
   | 'c' :: r => (String.ofList r).toNat?
   | 's' :: r => (String.ofList r).toNat?.map (· + 1000)
   | 'e' :: r => (String.ofList r).toNat?.map (· + 2000)
+  | 'l' :: r => (String.ofList r).toNat?.map (· + 3000)
   | _ => none
 
 def showName (n : Nat) : String :=
-  if n < 1000 then s!"c{n}" else if n < 2000 then s!"s{n - 1000}" else s!"e{n - 2000}"
+  if n < 1000 then s!"c{n}" else if n < 2000 then s!"s{n - 1000}" else if n < 3000 then s!"e{n - 2000}" else s!"l{n - 3000}"
 
 def parseKind (s : String) : Option Kind :=
   if s == "bin" then some .bin else if s == "zint" then some .zint else if s == "zbool" then some .zbool else none
@@ -87,20 +88,33 @@ def showGraph (G : CGraph) : String :=
   s!"entry={showName G.entry} " ++
     " ".intercalate (ns.map fun x => s!"{showTree x.c}>{showName x.t},{showName x.f}")
 
-/-- `c0:num:t:f:follow|-`  or  `e0:num` -/
+/-- `c0:num:t:f:follow|-` | `e0:num` | `s0:num:suc|-` | `l0:num:pre|post|endless:cond:latch:t|-:f|-:follow|-` -/
+def parseOptName (s : String) : Option (Option Nat) :=
+  if s == "-" then some none else (parseName s).map some
+
 def parseWNodes (s : String) : Option (List (Nat × Nat × WriterVisit.WKind)) :=
   (s.splitOn ",").mapM fun x =>
     match x.splitOn ":" with
     | [n, num, t, f, fo] =>
-      match parseName n, num.toNat?, parseName t, parseName f with
-      | some n, some num, some t, some f =>
-        if fo == "-" then some (n, num, .cond t f none)
-        else (parseName fo).map fun fo => (n, num, .cond t f (some fo))
-      | _, _, _, _ => none
+      match parseName n, num.toNat?, parseName t, parseName f, parseOptName fo with
+      | some n, some num, some t, some f, some fo => some (n, num, .cond t f fo)
+      | _, _, _, _, _ => none
+    | [n, num, suc] =>
+      match parseName n, num.toNat?, parseOptName suc with
+      | some n, some num, some suc => some (n, num, .stmt suc)
+      | _, _, _ => none
     | [n, num] =>
       match parseName n, num.toNat? with
       | some n, some num => some (n, num, .ret)
       | _, _ => none
+    | [n, num, lt, c, latch, t, f, fo] =>
+      let lt? : Option WriterVisit.LoopType :=
+        if lt == "pre" then some .pretest else if lt == "post" then some .posttest
+        else if lt == "endless" then some .endless else none
+      match parseName n, num.toNat?, lt?, parseName c, parseName latch, parseOptName t, parseOptName f, parseOptName fo with
+      | some n, some num, some lt, some c, some latch, some t, some f, some fo =>
+        some (n, num, .loop lt c latch (t.getD 9999) (f.getD 9999) fo)
+      | _, _, _, _, _, _, _, _ => none
     | _ => none
 
 def handle (line : String) : String :=
@@ -140,8 +154,8 @@ def handle (line : String) : String :=
     | some e, some ns =>
       let g : WriterVisit.WGraph :=
         ⟨fun n => (ns.find? (fun x => x.1 == n)).map (·.2.2), fun n => ((ns.find? (fun x => x.1 == n)).map (·.2.1)).getD 0⟩
-      let st := WriterVisit.visitNode g (2 * ns.length + 4) [] e ⟨[], []⟩
-      " ".intercalate (st.out.map fun (n, sw) => s!"{showName n}:{if sw then 1 else 0}")
+      let st := WriterVisit.visitNode g (2 * ns.length + 4) ⟨[], [], []⟩ e ⟨[], []⟩
+      " ".intercalate (st.out.map fun ev => s!"{showName ev.obj}:{if ev.swapped then 1 else 0}")
     | _, _ => "bad-op"
   | _ => "bad-op"
 
